@@ -262,6 +262,7 @@ func c06len(n int) []byte {
 func c06str(s []byte) []byte { return append(c06len(len(s)), s...) }
 
 type c06ent struct {
+	gone bool // (rump) the key is in the SCAN reply but answers DUMP with nil: it vanished in between
 	lua  bool
 	db   int
 	key  []byte
@@ -341,6 +342,8 @@ func c06parseEnts(s string) []c06ent {
 		switch p[0] {
 		case "k":
 			out = append(out, c06ent{db: atoi(p[1]), key: unhx(p[2]), slot: atoi(p[3])})
+		case "g":
+			out = append(out, c06ent{db: atoi(p[1]), key: unhx(p[2]), slot: atoi(p[3]), gone: true})
 		case "l":
 			out = append(out, c06ent{lua: true, db: atoi(p[1])})
 		default:
@@ -379,6 +382,7 @@ func c06join(l []string) string {
 // ---------------------------------------------------------------- fake redigo connections for rump
 
 type c06source struct {
+	gone    map[string]bool  // "<db>:<key>" of the keys that answer DUMP with nil
 	keys    map[int][]string // db -> keys
 	cur     int
 	pending []interface{}
@@ -394,6 +398,9 @@ func (s *c06source) Receive() (interface{}, error) {
 func (s *c06source) reply(cmd string, args []interface{}) interface{} {
 	switch strings.ToLower(cmd) {
 	case "dump":
+		if k, ok := args[0].(string); ok && s.gone[fmt.Sprintf("%d:%s", s.cur, k)] {
+			return nil
+		}
 		return []byte("v")
 	case "pttl":
 		return int64(-1)
@@ -591,7 +598,16 @@ func runC06(f []string) string {
 		conf.Options.TargetDB = atoi(c06field(f[7], "tdb="))
 		defer func() { conf.Options.TargetDB = -1 }()
 		es := c06parseEnts(c06field(f[8], "E="))
-		src := &c06source{keys: c06keyspace(es)}
+		src := &c06source{keys: c06keyspace(es), gone: map[string]bool{}}
+		goneName := map[string]bool{} // whether a vanished key is copied (empty) or skipped is C16's; its name is left out here
+		for _, e := range es {
+			if e.gone {
+				src.gone[fmt.Sprintf("%d:%s", e.db, e.key)] = true
+				for d := -1; d < 64; d++ {
+					goneName[fmt.Sprintf("%d:%s", d, hx(e.key))] = true
+				}
+			}
+		}
 		tgt := &c06target{}
 		done := make(chan struct{})
 		go func() {
@@ -605,7 +621,12 @@ func runC06(f []string) string {
 			return "rump=timeout"
 		}
 		tgt.mu.Lock()
-		got := append([]string{}, tgt.arrived...)
+		var got []string
+		for _, a := range tgt.arrived {
+			if !goneName[a] {
+				got = append(got, a)
+			}
+		}
 		tgt.mu.Unlock()
 		sort.Strings(got)
 		return "rump=" + c06join(got)
@@ -967,7 +988,22 @@ func (g *gen) c06path(kind string) {
 	case "path":
 		g.emit("path %s tdb=%d ls=%d E=%s S=%s", cfg, tdb, c06Slot("lua"), e, strings.Join(items, ","))
 	case "rump":
-		g.emit("rump %s tdb=%d E=%s", cfg, tdb, e)
+		// some keys of the SCAN replies have vanished by the time they are dumped (names unique, so that leaving them out of
+		// the comparison leaves nothing else out)
+		var es2 []string
+		for i, t := range strings.Split(e, ",") {
+			es2 = append(es2, t)
+			if p := strings.Split(t, ":"); p[0] == "k" && g.r.Intn(4) == 0 {
+				k := append(unhx(p[2]), []byte(fmt.Sprintf("~gone%d", i))...)
+				gone := fmt.Sprintf("g:%s:%s:%d", p[1], hx(k), c06Slot(string(k)))
+				if g.r.Intn(2) == 0 {
+					es2 = append(es2[:len(es2)-1], gone, t)
+				} else {
+					es2 = append(es2, gone)
+				}
+			}
+		}
+		g.emit("rump %s tdb=%d E=%s", cfg, tdb, strings.Join(es2, ","))
 	case "tail":
 		g.emit("tail %s S=%s", cfg, strings.Join(items, ","))
 	}
